@@ -324,6 +324,9 @@ class Run:
                 programs.CURRENT_REC = None
             self.rec.hooks['step'] = self._on_step
             proc.add_cleanup(lambda: self.rec.ev('cleanup'))
+            if case.get('cleanup_chain'):
+                # a cleanup that, when it runs, registers one more (accepted by add_cleanup, so it has to run as well, once)
+                proc.add_cleanup(lambda: (self.rec.ev('cleanup-first'), proc.add_cleanup(lambda: self.rec.ev('cleanup-late'))))
             if case.get('listener', True):
                 raising = case.get('listener') == 'raising'
                 self.listener = RecListener(self, raising=raising)
